@@ -180,6 +180,16 @@ fn lazy_source(name: &str) -> Option<String> {
     }
 }
 
+/// a custom object as root context
+#[derive(Debug)]
+struct RootObj;
+impl minijinja::value::Object for RootObj {}
+
+#[derive(serde::Serialize)]
+struct RootSer {
+    unused: u32,
+}
+
 fn fail() -> Result<Value, Error> {
     Err(Error::new(ErrorKind::InvalidOperation, "boom"))
 }
@@ -540,6 +550,17 @@ fn run_here(shape: &str, limit: usize, budget: i64, mode: &str) -> String {
     env.add_function("pt", pt);
     env.add_filter("viaf", viaf);
     env.add_test("viat", viat);
+    // `<mode>` and `r<root kind>` tokens
+    let mut root_kind = 'm';
+    let mut entry_mode = "";
+    for tok in mode.split('+').filter(|t| !t.is_empty()) {
+        if tok.len() == 2 && tok.starts_with('r') {
+            root_kind = tok.chars().nth(1).unwrap();
+        } else {
+            entry_mode = tok;
+        }
+    }
+    let mode = entry_mode;
     let entry_source = templates.get(&entry).cloned().unwrap_or_default();
     env.set_loader(move |name| Ok(templates.get(name).cloned().or_else(|| lazy_source(name))));
     // the limit is configured before the environment is cloned
@@ -550,17 +571,44 @@ fn run_here(shape: &str, limit: usize, budget: i64, mode: &str) -> String {
     };
     let tree = nest(tree_depth);
     let nest2 = nest(2);
+    // the data the shapes use is global, so that every kind of root context renders the same program
+    let mut env = env;
+    env.add_global("tree", tree.clone());
+    env.add_global("nest2", nest2.clone());
     BUDGET.store(if budget == 0 { -1 } else { budget }, Ordering::Relaxed);
     TICK_LOW.store(usize::MAX, Ordering::Relaxed);
     recursion::reset();
     *DRIFT.lock().unwrap() = None;
     UQ.store(0, Ordering::Relaxed);
     let r = guarded(|| {
-        let mut ctx = BTreeMap::new();
-        ctx.insert("tree", tree.clone());
-        ctx.insert("nest2", nest2.clone());
-        let ctx = Value::from(ctx);
+        // the root context of the render: its KIND must not matter for the depth accounting
+        let ctx = match root_kind {
+            'u' => Value::from(()),
+            'x' => Value::UNDEFINED,
+            'o' => Value::from_object(RootObj),
+            'e' => minijinja::context! {},
+            's' => Value::from(minijinja::value::Serde(RootSer { unused: 1 })),
+            _ => {
+                let mut ctx = BTreeMap::new();
+                ctx.insert("unused", Value::from(1));
+                Value::from(ctx)
+            }
+        };
         match mode {
+            // a finished render, then a macro / block called from Rust on the captured state
+            "capcall" | "caprb" => {
+                let tmpl = env.get_template(&entry)?;
+                BUDGET.store(0, Ordering::Relaxed);
+                let mut captured = tmpl.render_captured(ctx)?;
+                BUDGET.store(if budget == 0 { -1 } else { budget }, Ordering::Relaxed);
+                recursion::reset();
+                TICK_LOW.store(usize::MAX, Ordering::Relaxed);
+                if mode == "capcall" {
+                    captured.with_state_mut(|state| state.call_macro("m0", &[]))
+                } else {
+                    captured.with_state_mut(|state| state.render_block("b0"))
+                }
+            }
             "write" => {
                 let tmpl = env.get_template(&entry)?;
                 let mut sink = Vec::<u8>::new();
@@ -773,6 +821,9 @@ fn cases(tier: &str) -> Vec<String> {
             for th in ["main", "t2m"] {
                 out.push(format!("{sh} {limit} 0 {th}"));
             }
+            // the kind of the root context is an axis of every stream
+            let rk = ['u', 'x', 'o', 'e', 's', 'x'][(si + li) % 6];
+            out.push(format!("{sh} {limit} 0 t2m+r{rk}"));
             // a terminating variant: budget below what the limit admits, and one near it
             let b1 = 1 + rng.below(3) as usize;
             let b2 = 1 + rng.below(limit as u64 / 2 + 2) as usize;
@@ -799,6 +850,22 @@ fn cases(tier: &str) -> Vec<String> {
             out.push(format!("{sh} 100 0 t2m+{mode}"));
             out.push(format!("{sh} 500 0 t2m+{mode}"));
             out.push(format!("{sh} 500 3 main+{mode}"));
+        }
+    }
+    // every root kind for every pure cycle; a macro / block called from Rust after a finished render
+    for sh in shapes.iter().filter(|s| !s.contains(',') && s.ends_with("0000")) {
+        for rk in ['u', 'x', 'o', 'e', 's'] {
+            for limit in [10usize, 100, 500] {
+                out.push(format!("{sh} {limit} 0 t2m+r{rk}"));
+            }
+            out.push(format!("{sh} 500 0 t2m+captured+r{rk}"));
+            if sh.starts_with("M:") {
+                out.push(format!("{sh} 100 0 t2m+capcall+r{rk}"));
+                out.push(format!("{sh} 500 0 t2m+capcall+r{rk}"));
+            }
+            if sh.starts_with("B:") && !sh.starts_with("B:S") && !sh.starts_with("B:M") {
+                out.push(format!("{sh} 100 0 t2m+caprb+r{rk}"));
+            }
         }
     }
     for k in ['B', 'V', 'R'] {
